@@ -25,7 +25,7 @@ HEAD = {
     "C12": "C12_wrong_args_*, C12_missing_*, C12_untouched, C12_errors, C12_stmt_cycles_terminate",
     "C13": "C13_parsed, C13_emit_on/off, C13_placement, C08_comment_wf, Format_comments (comments found in the final text are the emitted comment pieces, in order)",
     "C14": "C14_noninterference (any interleaving of any histories) + no_shared_writes / format_leaves_arguments decided on the re-extracted static scan",
-    "C15": "no idempotence theorem: C02_minified_style + the layout theorems bound what can differ; decided by byte comparison of two minify passes in the oracle stream (proof level claimed for the pieces, see level_note)",
+    "C15": "C15_idempotent: minify(parse(minify(parse(src)))) = minify(parse(src)) byte for byte, for MinifiedStyle as extracted; C15_idempotent_general",
     "C16": "C16_positions, C16_reference_position, C16_eof, C16_advance, C09_error_positions",
     "C17": "C17_links, C17_walk (generic tree model) + schema_links/walk/replace/exercised decided on the re-extracted class schema",
     "C18": "C18_eq (== iff structural identity on the generic model) + schema_eq decided on the re-extracted class schema",
